@@ -11,7 +11,10 @@ Three evaluators meet on every case:
 
 obs[0] = impl result   vs driver line `model`   (impl ≡ model: the correspondence)
 obs[1] = ref result    vs driver line `spec`    (Lean spec ≡ Python reference: a mismatch is a harness bug)
-viol   = impl ≠ ref   (the property itself, decided without Lean)
+obs[2] = Safe / inFragment, Python mirror vs Lean
+obs[3..6] = the same two pairs for the SAME prepared query evaluated again: after the data object was changed in place
+         (case["ds2"]) and on another Graph / Dataset object with the same graph names (case["ds3"])
+viol   = impl ≠ ref   (the property itself, decided without Lean; tags reeval-… / other-… for the re-evaluations)
 """
 import atexit
 import hashlib
@@ -49,6 +52,7 @@ TRUSTED = ["harness/sparqlgen.py (generator, SPARQL printer, s-expression encode
 
 
 MAX_QUERY_TEXT = 2500
+PROBE_SHARE = 0.15  # share of queries from sparqlgen's scoping-probe template (see there)
 _GENERATED = []   # query texts made by gen_case in this process (for the bulk algebra prefetch in model_lines)
 _ALG = {}         # query text -> s-expression of rdflib's translated algebra
 # parsing is the expensive step (pyparsing, ~20 ms a query): the worker processes of run_impl leave the encoded algebra in
@@ -67,7 +71,7 @@ def gen_case(rng, tier, i):
     ds = G.gen_dataset(rng, named=named)
     dmax = 4 if tier == "quick" else 6
     depth = rng.choice([1, 1, 2, 2, 2, 3, 3, dmax])
-    q = G.gen_query(rng, ds, depth=depth)
+    q = G.gen_query(rng, ds, depth=depth, probe_share=PROBE_SHARE)
     # very large queries (several kB of text, depth 6) are correct but take rdflib tens of seconds since MINUS right-hand
     # sides and sub-selects are re-evaluated, unpushed, for every outer solution: the per-case watchdog (20 s) would
     # report them as timeouts.  The property is about answers, not speed: keep queries to a size that evaluates quickly.
@@ -75,7 +79,9 @@ def gen_case(rng, tier, i):
         depth -= 1
         q = G.gen_query(rng, ds, depth=depth)
     _GENERATED.append(G.to_sparql(q))
-    return {"ds": ds, "q": q}
+    # the SAME prepared query is evaluated again after the data changed in place (ds2) and on another
+    # Graph / Dataset object with the same graph names (ds3)
+    return {"ds": ds, "q": q, "ds2": G.mutate_dataset(rng, ds), "ds3": G.mutate_dataset(rng, ds)}
 
 
 def _safe_line(alg_sx):
@@ -93,54 +99,102 @@ def _canon(res, star):
     return G.canon_result(res)
 
 
+def _needs_dataset(ds, q):
+    return bool(ds["named"] or ds.get("union") or "(graph " in G.sx_query(q))
+
+
+def _mutate_in_place(g, old, new):
+    """change the rdflib Graph / Dataset `g` (holding `old`) so that it holds `new`; same objects, same graph names"""
+    def diff(graph, ots, nts):
+        o = {G.T(t) for t in ots}
+        n = {G.T(t) for t in nts}
+        for t in o - n:
+            graph.remove(tuple(G.to_rdflib_term(x) for x in t))
+        for t in n - o:
+            graph.add(tuple(G.to_rdflib_term(x) for x in t))
+    if hasattr(g, "default_context"):
+        diff(g.default_context, old["default"], new["default"])
+        for (name, ots), (_n, nts) in zip(old["named"], new["named"]):
+            diff(g.graph(G.to_rdflib_term(name)), ots, nts)
+    else:
+        diff(g, old["default"], new["default"])
+
+
+def _judge(q, got, ref, impl_line, ref_line, star, tag0=""):
+    viol = []
+    if "error" in got:
+        viol.append(f"{tag0}raises: rdflib raised {got['error']} on a well-formed query; algebra gives {ref_line[:120]}")
+    elif q["form"] == "select":
+        if G.canon_bag(got["bag"]) != G.canon_bag(ref["bag"]):
+            viol.append(f"{tag0}bag: rdflib returned {{{G.canon_bag(got['bag'])[:200]}}} but the algebra gives "
+                        f"{{{G.canon_bag(ref['bag'])[:200]}}} for {G.to_sparql(q)[:300]}")
+        elif not star and got["vars"] != ref["vars"]:
+            viol.append(f"{tag0}vars: Result.vars {got['vars']} differ from the projection {ref['vars']}")
+        elif star and not set(ref["vars"]) <= set(got["vars"]):
+            viol.append(f"{tag0}vars: SELECT * misses in-scope variables: {got['vars']} vs {ref['vars']}")
+    elif impl_line != ref_line:
+        tag = "ask" if q["form"] == "ask" else "construct"
+        viol.append(f"{tag0}{tag}: rdflib gives {impl_line[:200]} but the algebra gives {ref_line[:200]} for "
+                    f"{G.to_sparql(q)[:300]}")
+    return viol
+
+
 def run_impl(case):
     ds, q = case["ds"], case["q"]
     star = q["form"] == "select" and q["proj"] is None
     st = dict(G.stats_of(q))
-    ref = G.eval_query(ds, q, st)
-    ref_line = _canon(ref, star)
     text = G.to_sparql(q)
-    try:
-        from rdflib.plugins.sparql import prepareQuery
-        pq = prepareQuery(text)
-        if text not in _ALG:
-            try:
-                _ALG[text] = G.encode_rdflib_algebra(pq.algebra)   # before evaluation (Expr.eval touches the tree)
-            except Exception as e:
-                _ALG[text] = f"(unencodable {type(e).__name__})"
-            if os.getpid() != _MAIN_PID:
-                with open(_scratch_path(text), "w") as f:
-                    f.write(_ALG[text])
-        # a plain Graph only when nothing needs a dataset (GRAPH on a plain Graph is an error by design in rdflib)
-        g = (G.to_rdflib_dataset(ds) if ds["named"] or ds.get("union") or "elt_graph" in st or "graph_var" in st
-             or "graph_const" in st or "(graph " in G.sx_query(q) else G.to_rdflib_graph(ds))
-        # the two ways users run a query: a prepared Query object, or the text (parsed again by the processor)
-        got = G.read_rdflib_result(g.query(pq) if len(text) % 4 else g.query(text))
-        st["api_prepared" if len(text) % 4 else "api_text"] = 1
-        impl_line = _canon(got, star)
-    except core.CaseTimeout:
-        raise
-    except Exception as e:  # the fragment never raises in the specification
-        got, impl_line = {"error": type(e).__name__}, "error " + type(e).__name__
-    viol = []
-    if "error" in got:
-        viol.append(f"raises: rdflib raised {got['error']} on a well-formed query; algebra gives {ref_line[:120]}")
-    elif q["form"] == "select":
-        if G.canon_bag(got["bag"]) != G.canon_bag(ref["bag"]):
-            viol.append(f"bag: rdflib returned {{{G.canon_bag(got['bag'])[:200]}}} but the algebra gives "
-                        f"{{{G.canon_bag(ref['bag'])[:200]}}} for {G.to_sparql(q)[:300]}")
-        elif not star and got["vars"] != ref["vars"]:
-            viol.append(f"vars: Result.vars {got['vars']} differ from the projection {ref['vars']}")
-        elif star and not set(ref["vars"]) <= set(got["vars"]):
-            viol.append(f"vars: SELECT * misses in-scope variables: {got['vars']} vs {ref['vars']}")
-    elif impl_line != ref_line:
-        tag = "ask" if q["form"] == "ask" else "construct"
-        viol.append(f"{tag}: rdflib gives {impl_line[:200]} but the algebra gives {ref_line[:200]} for "
-                    f"{G.to_sparql(q)[:300]}")
-    nonempty = bool(ref.get("bag")) or bool(ref.get("ask")) or bool(ref.get("graph"))
+    rounds = [("", ds)] + ([("reeval-", case["ds2"]), ("other-", case["ds3"])] if "ds2" in case and "ds3" in case else [])
+    obs_pairs, viol = [], []
+    pq = g = None
+    nonempty = False
+    for k, (tag0, dsk) in enumerate(rounds):
+        ref = G.eval_query(dsk, q, st if k == 0 else None)
+        ref_line = _canon(ref, star)
+        try:
+            if k == 0:
+                from rdflib.plugins.sparql import prepareQuery
+                pq = prepareQuery(text)
+                if text not in _ALG:
+                    try:
+                        _ALG[text] = G.encode_rdflib_algebra(pq.algebra)   # before evaluation (Expr.eval touches the tree)
+                    except Exception as e:
+                        _ALG[text] = f"(unencodable {type(e).__name__})"
+                    if os.getpid() != _MAIN_PID:
+                        with open(_scratch_path(text), "w") as f:
+                            f.write(_ALG[text])
+                # a plain Graph only when nothing needs a dataset (GRAPH on a plain Graph is an error by design in rdflib)
+                g = G.to_rdflib_dataset(ds) if _needs_dataset(ds, q) else G.to_rdflib_graph(ds)
+                # the two ways users run a query: a prepared Query object, or the text (parsed again by the processor)
+                if len(text) % 4:
+                    got = G.read_rdflib_result(g.query(pq))
+                    st["api_prepared"] = 1
+                else:
+                    got = G.read_rdflib_result(g.query(text))
+                    st["api_text"] = 1
+                    if len(rounds) > 1:
+                        g.query(pq).bindings if q["form"] == "select" else None   # first use of the prepared object
+            elif k == 1:
+                _mutate_in_place(g, ds, dsk)            # same Graph / Dataset object, data changed
+                got = G.read_rdflib_result(g.query(pq))
+                st["reeval_same_object"] = 1
+            else:
+                g3 = G.to_rdflib_dataset(dsk) if _needs_dataset(ds, q) else G.to_rdflib_graph(dsk)
+                got = G.read_rdflib_result(g3.query(pq))    # another object with the same identifiers
+                st["reeval_other_object"] = 1
+            impl_line = _canon(got, star)
+        except core.CaseTimeout:
+            raise
+        except Exception as e:  # the fragment never raises in the specification
+            got, impl_line = {"error": type(e).__name__}, "error " + type(e).__name__
+        viol += _judge(q, got, ref, impl_line, ref_line, star, tag0)
+        obs_pairs.append((impl_line, ref_line))
+        if k == 0:
+            got0, ref0 = got, ref
+            nonempty = bool(ref.get("bag")) or bool(ref.get("ask")) or bool(ref.get("graph"))
     st["nonempty"] = int(nonempty)
     st["queries"] = 1
-    alg = _algebra_text(G.to_sparql(q))
+    alg = _algebra_text(text)
     safe_line = _safe_line(alg)
     try:
         pat = G.query_pattern(G.parse_sx(alg))
@@ -150,19 +204,22 @@ def run_impl(case):
         st["safe_and_in_proved_fragment"] = int(not probs and G.alg_in_fragment(pat))
         for k in probs:
             st["unsafe_" + k] = 1
+        if G.annotation_mismatches(pat):
+            st["annotations_not_as_addVars"] = 1
         if viol and not probs:
             viol = ["safe-" + v for v in viol]     # a failure on a query the theorems' hypothesis `Safe` covers
     except Exception:
         st["algebra_unencodable"] = 1
-    if star and "vars" in got and set(got["vars"]) != set(ref["vars"]):
+    if star and "vars" in got0 and set(got0["vars"]) != set(ref0["vars"]):
         st["select_star_extra_header_vars"] = 1
     # SELECT *: rdflib's header also lists variables that occur only in FILTER / MINUS (never bound).  obs[0] compares
     # the header rdflib reports with the model's (PV of rdflib's tree); the property (a multiset of bindings) only needs
     # the in-scope variables to be present.
     n_elts = len(q["where"][1])
-    return {"obs": [impl_line, ref_line, safe_line], "viol": viol,
+    obs = [obs_pairs[0][0], obs_pairs[0][1], safe_line] + [x for pr in obs_pairs[1:] for x in pr]
+    return {"obs": obs, "viol": viol,
             "nontrivial": nonempty and (n_elts >= 2 or any(x[0] != "tri" for x in q["where"][1])),
-            "key": G.to_sparql(q) + "|" + G.sx_dataset(ds), "stats": st}
+            "key": text + "|" + G.sx_dataset(ds), "stats": st}
 
 
 def _algebra_text(text):
@@ -195,7 +252,11 @@ def model_lines(case):
         _prefetch()
     n = G.nvars(q)
     alg = _algebra_text(G.to_sparql(q))
-    return ["ds " + G.sx_dataset(ds), f"model {n} {alg}", f"spec {n} {G.sx_query(q)}", f"safe {alg}"]
+    lines = ["ds " + G.sx_dataset(ds), f"model {n} {alg}", f"spec {n} {G.sx_query(q)}", f"safe {alg}"]
+    if "ds2" in case and "ds3" in case:
+        for k in ("ds2", "ds3"):
+            lines += ["ds " + G.sx_dataset(case[k]), f"model {n} {alg}", f"spec {n} {G.sx_query(q)}"]
+    return lines
 
 
 def _parse_term(c):
@@ -234,14 +295,26 @@ def _recanon(line, star):
 def select_model_obs(case, out):
     q = case["q"]
     star = q["form"] == "select" and q["proj"] is None
-    return [_recanon(out[1], star), _recanon(out[2], star), out[3]]
+    sel = [_recanon(out[1], star), _recanon(out[2], star), out[3]]
+    if len(out) >= 10:
+        sel += [_recanon(out[5], star), _recanon(out[6], star), _recanon(out[8], star), _recanon(out[9], star)]
+    return sel
 
 
 def shrink(case):
+    if "ds2" in case:
+        yield {k: v for k, v in case.items() if k not in ("ds2", "ds3")}
     for q in G.shrink_query(case["q"]):
         yield {**case, "q": q}
-    for ds in G.shrink_dataset(case["ds"]):
-        yield {**case, "ds": ds}
+    if "ds2" not in case:
+        for ds in G.shrink_dataset(case["ds"]):
+            yield {**case, "ds": ds}
+    else:
+        # keep the three datasets over the same graph names: shrink triples only
+        for k in ("ds", "ds2", "ds3"):
+            for ds in G.shrink_dataset(case[k]):
+                if [n for n, _ in ds["named"]] == [n for n, _ in case[k]["named"]] and ds.get("union") == case[k].get("union"):
+                    yield {**case, k: ds}
 
 
 def _kind_matcher(kind):
@@ -254,8 +327,13 @@ def _kind_matcher(kind):
         probs = G.alg_problems(G.query_pattern(G.parse_sx(alg)))
         if not (set(kind) & probs):
             return False
+        # the annotations must be exactly what the CURRENT `_addVars` computes: a change of `_addVars` is a new defect
+        if G.annotation_mismatches(G.query_pattern(G.parse_sx(alg))):
+            return False
+        # every evaluation (also the re-evaluations of the prepared query) must give exactly what the model predicts
         out = core.run_driver(__import__("c04"), model_lines(case))
-        return select_model_obs(case, out)[0] == result["obs"][0]
+        sel = select_model_obs(case, out)
+        return all(sel[i] == result["obs"][i] for i in (0, 3, 5) if i < len(sel))
     return m
 
 
